@@ -174,6 +174,34 @@ def _hand_down(ctx):
                 key=f"DEFUSE|construct_tracts|{k}")
     args = [norm(a) for a in calls[0].args]
     ctx.shape(args[:2] == ['desc', 'trs'], 'DEFUSE', 'construct_tracts: Tract(desc, trs, ...)')
+    # '' and None MEAN "undefined" to TRS.construct_trs / from_twprgesec: a component cut out of the
+    # staged Twp/Rge by slicing is '' whenever that string is an error placeholder (no 'n' / 's' to
+    # cut at), and the tract of a PARSED description would then carry an undefined component
+    mod_ = ctx.repo.module('plssdesc.plss_parse')
+    for f2 in ctx.repo.funcs.values():
+        if f2.module is not mod_:
+            continue
+        for c_ in walk_local(f2.node):
+            if isinstance(c_, ast.Call) and (dotted(c_.func) or '').split('.')[-1] in ('construct_trs', 'from_twprgesec'):
+                sliced = []
+                for a_ in list(c_.args) + [k.value for k in c_.keywords]:
+                    exprs = [a_]
+                    if isinstance(a_, ast.Name):
+                        for y in walk_local(f2.node):
+                            if isinstance(y, ast.Assign):
+                                for t_ in y.targets:
+                                    if isinstance(t_, ast.Name) and t_.id == a_.id:
+                                        exprs.append(y.value)
+                                    elif isinstance(t_, ast.Tuple) and any(isinstance(e_, ast.Name) and e_.id == a_.id for e_ in t_.elts) \
+                                            and isinstance(y.value, ast.Tuple):
+                                        exprs += list(y.value.elts)
+                    if any(isinstance(x, ast.Subscript) and isinstance(x.slice, ast.Slice) for e_ in exprs for x in ast.walk(e_)):
+                        sliced.append(norm(a_))
+                ctx.check(not sliced, 'TBL', f"{f2.qualname}: components handed to {dotted(c_.func)} are never an empty slice",
+                          detail_bad=f"`{norm(c_)[:70]}` receives {sliced}, cut out of a longer string by slicing: for the error Twp/Rge "
+                                     f"placeholder ('XXXzXXXz' has no 'n' / 's') the slice is '', which construct_trs reads as UNDEFINED "
+                                     f"- a tract of a parsed description then carries '___z...' and twp_undef=True",
+                          key=f"TBL|{f2.qualname}|empty-slice-undef", where=common.loc(f2, c_))
     # a tract made by copying another one carries that one's orig_index
     for a_ in walk_local(ct.node):
         if isinstance(a_, ast.Assign) and isinstance(a_.targets[0], ast.Name):
